@@ -107,6 +107,10 @@ func (c *Client) handleSearch() error {
 		if !c.dec.ExpectNumber(&num) {
 			return c.dec.Err()
 		}
+		if num == 0 {
+			// AddNum would interpret zero as "*"
+			return fmt.Errorf("in search response: message number must be non-zero")
+		}
 		if cmd != nil {
 			switch all := cmd.data.All.(type) {
 			case imap.SeqSet:
